@@ -42,8 +42,9 @@ func (s *ValidatorStore) SavePubKeys(_ context.Context, keys []gcrypto.PubKey) (
 		return sHash, tmstore.PubKeysAlreadyExistError{ExistingHash: sHash}
 	}
 
-	// TODO: should this clone the public keys?
-	s.keys[sHash] = keys
+	// Clone, like SaveVotePowers: the caller keeps ownership of its slice,
+	// so reusing it after the call must not change what is stored under sHash.
+	s.keys[sHash] = slices.Clone(keys)
 	return sHash, nil
 }
 
